@@ -1,7 +1,8 @@
 package exporter
 
 // Native counterparts of the engine's Prometheus stubs: the constructors may
-// be made to fail by the replay vector (call sites in prometheus.go are
+// be made to fail by the replay vector, and otherwise fail exactly when the
+// real client library refuses the sample (both count as refusals) (call sites in prometheus.go are
 // rewritten to these for replay), the accessors decode the real client
 // library objects.
 
@@ -19,14 +20,22 @@ func verifNewConstMetric(desc *prometheus.Desc, vt prometheus.ValueType, v float
 	if vFault("NewConstMetric") {
 		return nil, errors.New("injected: prometheus refused the sample")
 	}
-	return prometheus.NewConstMetric(desc, vt, v, lv...)
+	m, err := prometheus.NewConstMetric(desc, vt, v, lv...)
+	if err != nil {
+		verifFaults++ // a refusal of the real client library (modelled by the engine's promRefuses)
+	}
+	return m, err
 }
 
 func verifNewConstHistogram(desc *prometheus.Desc, count uint64, sum float64, buckets map[float64]uint64, lv ...string) (prometheus.Metric, error) {
 	if vFault("NewConstMetric") {
 		return nil, errors.New("injected: prometheus refused the sample")
 	}
-	return prometheus.NewConstHistogram(desc, count, sum, buckets, lv...)
+	m, err := prometheus.NewConstHistogram(desc, count, sum, buckets, lv...)
+	if err != nil {
+		verifFaults++
+	}
+	return m, err
 }
 
 var verifDescRe = regexp.MustCompile(`fqName: "([^"]*)", help: "([^"]*)", constLabels: \{[^}]*\}, variableLabels: \{([^}]*)\}`)
